@@ -74,6 +74,10 @@ theorem run_extB_cons (name : String) (args : List Val) (l : List Nat) (rest : L
     run (extB name args) { answers := Val.bs l :: rest, log := log } =
       (Res.ok l, { answers := rest, log := log ++ [(name, args)] }) := rfl
 
+theorem run_extO_cons (name : String) (args : List Val) (i : Int) (rest : List Val) (log : List (String × List Val)) :
+    run (extO name args) { answers := Val.n i :: rest, log := log } =
+      (Res.ok (if i = 0 then none else some ()), { answers := rest, log := log ++ [(name, args)] }) := rfl
+
 /-- sequencing lemmas in conditional form (rewriting under the `match` of `run_bind` makes the
     kernel's type check of the motive blow up; these do not) -/
 theorem run_bind_ok {α β : Type} (m : M α) (f : α → M β) (os os' : Os) (v : α) (h : run m os = (Res.ok v, os')) :
